@@ -12,69 +12,73 @@ Definition eps_np : Q := mkq 1 4503599627370496.        (* np.finfo(float).eps =
 
 Definition qz (z : Z) : Q := inject_Z z.
 
-(* ---- sjm (NonnegMean.sjm L167-174): S_j = sum of the first j-1 values, m_j ---- *)
-(* S list: np.insert(np.cumsum(x),0,0)[0:-1] *)
-Fixpoint prefix_sums (acc : Q) (xs : list Q) : list Q :=
-  match xs with [] => [] | x :: r => acc :: prefix_sums (Qred (acc + x)) r end.
+(* ---- sequential machines: every running quantity of NonnegMean.py is a fold over the sample whose j-th output
+   is produced BEFORE the j-th observation is consumed (numpy computes them vectorised with an explicit shift:
+   np.insert(cumsum,0,0)[0:-1], np.insert(..., 0, lam)[0:-1]; the shift is what `out` before `step` expresses) ---- *)
+Fixpoint mscan {St B : Type} (out : St -> B) (step : St -> Q -> St) (s : St) (xs : list Q) : list B :=
+  match xs with
+  | [] => []
+  | x :: r => out s :: mscan out step (step s x) r
+  end.
+Record machine (B : Type) : Type := mkmachine {
+  m_St : Type; m_init : m_St; m_out : m_St -> B; m_step : m_St -> Q -> m_St }.
+Arguments mkmachine {B} _ _ _ _.
+Arguments m_St {B} _.
+Arguments m_init {B} _.
+Arguments m_out {B} _ _.
+Arguments m_step {B} _ _ _.
+Definition run_machine {B} (m : machine B) (xs : list Q) : list B :=
+  mscan (m_out m) (m_step m) (m_init m) xs.
+
 Definition qsum (xs : list Q) : Q := fold_left (fun a x => Qred (a + x)) xs 0.
 
-(* m_j = (N t - S_j)/(N - j + 1) if N finite else t;   j runs 1,2,... *)
+(* ---- sjm (NonnegMean.sjm L167-174): S_j = sum of the first j-1 values; m_j = (N t - S_j)/(N - j + 1) if N finite else t;
+   j runs 1,2,... ---- *)
 Definition mu_at (N : option Z) (t S : Q) (j : Z) : Q :=
   match N with
   | Some n => Qred ((qz n * t - S) / (qz n - qz j + 1))
   | None => t
   end.
-Fixpoint mu_list_from (N : option Z) (t : Q) (S : Q) (j : Z) (xs : list Q) : list Q :=
-  match xs with
-  | [] => []
-  | x :: r => mu_at N t S j :: mu_list_from N t (Qred (S + x)) (j + 1) r
-  end.
-Definition mu_list (N : option Z) (t : Q) (xs : list Q) : list Q := mu_list_from N t 0 1 xs.
+Definition sj_step (s : Q * Z) (x : Q) : Q * Z := (Qred (fst s + x), (snd s + 1)%Z).
+Definition mu_machine (N : option Z) (t : Q) : machine Q :=
+  mkmachine (Q * Z)%type (0, 1%Z) (fun s => mu_at N t (fst s) (snd s)) sj_step.
+Definition mu_list (N : option Z) (t : Q) (xs : list Q) : list Q := run_machine (mu_machine N t) xs.
 
-(* ---- welford_mean_var (L8-18): running mean and running population variance ---- *)
-(* state: (k = number seen, mean, M2); outputs after each observation *)
-Fixpoint welford_from (k : Z) (mean m2 : Q) (xs : list Q) : list (Q * Q) :=
-  match xs with
-  | [] => []
-  | x :: r =>
-      let k' := (k + 1)%Z in
-      let mean' := Qred (mean + (x - mean) / qz k') in
-      let m2' := Qred (m2 + (x - mean) * (x - mean')) in
-      (mean', Qred (m2' / qz k')) :: welford_from k' mean' m2' r
-  end.
-(* first element: m=[x0], v=[0]: welford_from 0 0 0 gives mean' = x0, m2' = (x0-0)*(x0-x0) = 0 *)
-Definition welford (xs : list Q) : list (Q * Q) := welford_from 0 0 0 xs.
+(* ---- welford_mean_var (L8-18): running mean and running population variance.
+   state (k observations seen, mean, M2, var = M2/k) ---- *)
+Record wstate := mkw { w_k : Z; w_mean : Q; w_m2 : Q; w_var : Q }.
+Definition w0 : wstate := mkw 0 0 0 0.
+Definition wstep (w : wstate) (x : Q) : wstate :=
+  let k' := (w_k w + 1)%Z in
+  let mean' := Qred (w_mean w + (x - w_mean w) / qz k') in
+  let m2' := Qred (w_m2 w + (x - w_mean w) * (x - mean')) in
+  mkw k' mean' m2' (Qred (m2' / qz k')).
+(* first element: m=[x0], v=[0]: from w0, mean' = x0 and m2' = (x0-0)*(x0-x0) = 0 *)
 
 Section Estimators.
 Variable sqrtq : Q -> Q.
 
 (* ---- fixed_alternative_mean (L250-262, repaired: clipped to [0,u]) ---- *)
 Definition clipq (lo hi x : Q) : Q := Qminb hi (Qmaxb lo x).  (* np.clip = minimum(hi, maximum(lo, x)) *)
+Definition fixed_alt_machine (N : option Z) (u eta : Q) : machine Q :=
+  mkmachine (Q * Z)%type (0, 1%Z) (fun s => clipq 0 u (mu_at N eta (fst s) (snd s))) sj_step.
 Definition fixed_alternative_mean (N : option Z) (u eta : Q) (xs : list Q) : list Q :=
-  map (clipq 0 u) (mu_list N eta xs).
+  run_machine (fixed_alt_machine N u eta) xs.
 
-(* ---- shrink_trunc (L304-322) ---- *)
-(* sdj = insert(maximum(sqrt(v), minsd), 0, 1)[0:-1]; sdj[1:2] = 1 *)
-Definition sd_list (minsd : Q) (xs : list Q) : list Q :=
-  let raw := map (fun mv => Qmaxb (sqrtq (snd mv)) minsd) (welford xs) in
-  let shifted := firstn (length xs) (1 :: raw) in
-  match shifted with
-  | a :: _ :: r => a :: 1 :: r
-  | l => l
-  end.
-Fixpoint shrink_from (N : option Z) (t u eta c d f : Q) (S : Q) (j : Z)
-         (xs sds : list Q) : list Q :=
-  match xs, sds with
-  | x :: r, sd :: sr =>
-      let m := mu_at N t S j in
-      let dj := d + qz j - 1 in
-      let weighted := ((d * eta + S) / dj + u * f / sd) / (1 + f / sd) in
-      Qred (Qminb (u * (1 - eps_np)) (Qmaxb weighted (m + c / sqrtq dj)))
-        :: shrink_from N t u eta c d f (Qred (S + x)) (j + 1) r sr
-  | _, _ => []
-  end.
+(* ---- shrink_trunc (L304-322).  sdj = insert(maximum(sqrt(v), minsd), 0, 1)[0:-1]; sdj[1:2] = 1:
+   the sd used for draw j is 1 for j <= 2, else max(sqrt(variance of the first j-1 draws), minsd) ---- *)
+Definition shrink_out (N : option Z) (t u eta c d f minsd : Q) (s : (Q * Z) * wstate) : Q :=
+  let S := fst (fst s) in let j := snd (fst s) in
+  let m := mu_at N t S j in
+  let dj := d + qz j - 1 in
+  let sd := if (j <=? 2)%Z then 1 else Qmaxb (sqrtq (w_var (snd s))) minsd in
+  let weighted := ((d * eta + S) / dj + u * f / sd) / (1 + f / sd) in
+  Qred (Qminb (u * (1 - eps_np)) (Qmaxb weighted (m + c / sqrtq dj))).
+Definition shrink_machine (N : option Z) (t u eta c d f minsd : Q) : machine Q :=
+  mkmachine ((Q * Z) * wstate)%type ((0, 1%Z), w0) (shrink_out N t u eta c d f minsd)
+            (fun s x => (sj_step (fst s) x, wstep (snd s) x)).
 Definition shrink_trunc (N : option Z) (t u eta c d f minsd : Q) (xs : list Q) : list Q :=
-  shrink_from N t u eta c d f 0 1 xs (sd_list minsd xs).
+  run_machine (shrink_machine N t u eta c d f minsd) xs.
 
 (* ---- optimal_comparison (L353-354, repaired: clipped to [0,u]); a scalar, broadcast ---- *)
 Definition optimal_comparison_eta (u p2 : Q) : Q :=
@@ -83,28 +87,26 @@ Definition optimal_comparison_eta (u p2 : Q) : Q :=
 (* ---- fixed_bet (L367) ---- *)
 Definition fixed_bet (lam : Q) (xs : list Q) : list Q := map (fun _ => lam) xs.
 
-(* ---- agrapa (L411-433, repaired: 0/0 -> 0) ---- *)
-(* lamj_raw[k] = (mean_k - t_adj_k)/(var_k + (t_adj_k - mean_k)^2), NaN -> 0; then shifted right with lam first;
-   c_k = c0 + (cmax-c0)*(1 - 1/(1 + cgrow*sqrt(k))), k = 0,1,..; result max(0, min(c_k/t_adj_k, lamj_k)) *)
+(* ---- agrapa (L411-433, repaired: 0/0 -> 0).
+   lamj_raw[k] = (mean_k - t_adj_k)/(var_k + (t_adj_k - mean_k)^2) with 0/0 -> 0, then shifted right with lam first;
+   c_k = c0 + (cmax-c0)*(1 - 1/(1 + cgrow*sqrt(k))), k = 0,1,..; result max(0, min(c_k/t_adj_k, lamj_k)).
+   state: ((S, k+1), t_adj of the previous position, welford state of the draws seen) ---- *)
 Definition agrapa_raw (tadj mean var : Q) : Q :=
   let den := var + (tadj - mean) * (tadj - mean) in
   if Qeq_bool den 0 then 0 else (mean - tadj) / den.
-Fixpoint agrapa_from (c0 cmax cgrow : Q) (k : Z) (tadjs lams : list Q) : list Q :=
-  match tadjs, lams with
-  | ta :: tr, l :: lr =>
-      let c := c0 + (cmax - c0) * (1 - 1 / (1 + cgrow * sqrtq (qz k))) in
-      let capped :=
-        if Qeq_bool ta 0 then l                 (* c/0 = +inf: np.minimum(inf, l) = l *)
-        else Qminb (c / ta) l in
-      Qred (Qmaxb 0 capped) :: agrapa_from c0 cmax cgrow (k + 1) tr lr
-  | _, _ => []
-  end.
+Definition agrapa_out (N : option Z) (t lam c0 cmax cgrow : Q) (s : ((Q * Z) * Q) * wstate) : Q :=
+  let S := fst (fst (fst s)) in let j := snd (fst (fst s)) in   (* j = k+1 *)
+  let ta := mu_at N t S j in
+  let l := if (j <=? 1)%Z then lam else agrapa_raw (snd (fst s)) (w_mean (snd s)) (w_var (snd s)) in
+  let c := c0 + (cmax - c0) * (1 - 1 / (1 + cgrow * sqrtq (qz (j - 1)))) in
+  let capped := if Qeq_bool ta 0 then l      (* c/0 = +inf: np.minimum(inf, l) = l *)
+                else Qminb (c / ta) l in
+  Qred (Qmaxb 0 capped).
+Definition agrapa_machine (N : option Z) (t lam c0 cmax cgrow : Q) : machine Q :=
+  mkmachine (((Q * Z) * Q) * wstate)%type (((0, 1%Z), 0), w0) (agrapa_out N t lam c0 cmax cgrow)
+            (fun s x => ((sj_step (fst (fst s)) x, mu_at N t (fst (fst (fst s))) (snd (fst (fst s)))), wstep (snd s) x)).
 Definition agrapa (N : option Z) (t lam c0 cmax cgrow : Q) (xs : list Q) : list Q :=
-  let tadjs := mu_list N t xs in
-  let raws := map (fun p => agrapa_raw (fst p) (fst (snd p)) (snd (snd p)))
-                  (combine tadjs (welford xs)) in
-  let lams := firstn (length xs) (lam :: raws) in
-  agrapa_from c0 cmax cgrow 0 tadjs lams.
+  run_machine (agrapa_machine N t lam c0 cmax cgrow) xs.
 
 (* ---- lam_to_eta / eta_to_lam (L451, L469) ---- *)
 Definition lam_to_eta (u lam mu : Q) : Q := mu * (1 + lam * (u - mu)).
@@ -119,17 +121,22 @@ Inductive bet_kind :=
 | BFixed (lam : Q)
 | BAgrapa (lam c0 cmax cgrow : Q).
 
-Definition run_estim (e : estim_kind) (N : option Z) (t u : Q) (xs : list Q) : list Q :=
+Definition const_machine (v : Q) : machine Q := mkmachine unit tt (fun _ => v) (fun s _ => s).
+Definition estim_machine (e : estim_kind) (N : option Z) (t u : Q) : machine Q :=
   match e with
-  | EFixed eta => fixed_alternative_mean N u eta xs
-  | EShrink eta c d f minsd => shrink_trunc N t u eta c d f minsd xs
-  | EOptComp p2 => map (fun _ => optimal_comparison_eta u p2) xs
+  | EFixed eta => fixed_alt_machine N u eta
+  | EShrink eta c d f minsd => shrink_machine N t u eta c d f minsd
+  | EOptComp p2 => const_machine (optimal_comparison_eta u p2)
   end.
-Definition run_bet (b : bet_kind) (N : option Z) (t u : Q) (xs : list Q) : list Q :=
+Definition bet_machine (b : bet_kind) (N : option Z) (t u : Q) : machine Q :=
   match b with
-  | BFixed lam => fixed_bet lam xs
-  | BAgrapa lam c0 cmax cgrow => agrapa N t lam c0 cmax cgrow xs
+  | BFixed lam => const_machine lam
+  | BAgrapa lam c0 cmax cgrow => agrapa_machine N t lam c0 cmax cgrow
   end.
+Definition run_estim (e : estim_kind) (N : option Z) (t u : Q) (xs : list Q) : list Q :=
+  run_machine (estim_machine e N t u) xs.
+Definition run_bet (b : bet_kind) (N : option Z) (t u : Q) (xs : list Q) : list Q :=
+  run_machine (bet_machine b N t u) xs.
 
 (* ---- the martingale tests ---- *)
 Fixpoint map3 {A B C D} (f : A -> B -> C -> D) (a : list A) (b : list B) (c : list C) : list D :=
